@@ -30,7 +30,21 @@ def shards(tier):
 
 @st.composite
 def case_strategy(draw, fam):
-    m = draw(gen.matrix(n_min=2, n_max=16, p_min=1, p_max=8))
+    if draw(st.integers(0, 3)) == 0:
+        # clustered leading singular values (one-hot / contrast coding with nearly balanced categories): the regime in
+        # which a power method needs its full iteration budget
+        k = draw(st.integers(3, 6))
+        msz = draw(st.integers(6, 10))
+        sizes = [msz + draw(st.sampled_from([0, 0, 1])) for _ in range(k)]
+        n = sum(sizes)
+        X = np.zeros((n, k))
+        r = 0
+        for j, sz in enumerate(sizes):
+            X[r:r + sz, j] = draw(st.sampled_from([1., 1., -1., 2.]))
+            r += sz
+        m = dict(X=X.tolist(), n=n, p=k, flags=["clustered-spectrum"])
+    else:
+        m = draw(gen.matrix(n_min=2, n_max=16, p_min=1, p_max=8))
     n, p = m["n"], m["p"]
     X = np.array(m["X"])
     if draw(st.integers(0, 5)) == 0 and p >= 2:    # sign-cancelling pair
@@ -110,7 +124,7 @@ def check_case(case):
     viol = []
     nm = spec["name"]
     sig0 = dict(datafit=nm)
-    classes = [fam] + [f for f in case["flags"] if f in ("zero-col", "dup-col", "col-scales", "cancelling-cols")]
+    classes = [fam] + [f for f in case["flags"] if f in ("zero-col", "dup-col", "col-scales", "cancelling-cols", "clustered-spectrum")]
 
     def bad(kind, accessor, msg, **extra):
         viol.append(Viol(dict(sig0, kind=kind, accessor=accessor, **extra), f"{fam}.{accessor}: {msg}"))
